@@ -74,7 +74,7 @@ func c18Prop(race bool) *pProp {
 				}
 				pool := simsync.PoolConfig{NewPct: r.intn(20), RandomPct: r.intn(50), FIFOPct: r.intn(30), DropPct: r.intn(10)}
 				reqs = append(reqs, &parsersim.Request{ID: fmt.Sprintf("c18-%s-s%d", gp.Name, k), Kind: "c18", Parser: gp.Name,
-					Clients: clients, Sched: sc, Pool: pool, Seed: r.u64(), StepCap: 300000})
+					Clients: clients, Sched: sc, Pool: pool, Seed: r.u64(), StepCap: 60000})
 			}
 			return reqs
 		},
